@@ -6,10 +6,12 @@ import (
 	"os"
 
 	"filippo.io/age/xverif/props/c07"
+	"filippo.io/age/xverif/props/c08"
 )
 
 var checks = map[string]func(tier string){
 	"C07": c07.Run,
+	"C08": c08.Run,
 }
 
 func main() {
